@@ -1,5 +1,5 @@
-(* Properties_C16.v — a resolver reports exactly the valid addresses of its host (partial). *)
-From QV Require Import Base Fields SrcFacts Msg SrcDecisions Cache Sim Prober Resolver ResolverProofs.
+(* Properties_C16.v — a resolver reports exactly the valid addresses of its host. *)
+From QV Require Import Base Fields SrcFacts Msg SrcDecisions Cache Sim SimProofs Prober Resolver ResolverProofs ResolverInv.
 Local Open Scope Z_scope.
 
 (* PARTIAL.  Proved on the model: the shape of the initial query, soundness of the reports caused by responses
@@ -30,3 +30,52 @@ Theorem C16_received_records_stored_partial now rs s :
   fold_left (fun c r => fst (add now (rs_jitter s) r c)) (filter (fun r => resolver_filter r (rs_name s)) rs) (rs_cache s).
 Proof. exact (res_records_cache now rs s). Qed.
 Print Assumptions C16_received_records_stored_partial.
+
+(* ---- full statements for the reports caused by responses ---- *)
+(* the reports of one response are exactly [spec_reports]: in record order, the address of every A/AAAA record for
+   exactly the name with nonzero TTL unless already reported; and they are appended to the resolver's memory *)
+Theorem C16_response_reports now rs s :
+  reports (snd (res_records now rs s)) = spec_reports (rs_name s) rs (rs_addrs s) /\
+  rs_addrs (fst (res_records now rs s)) = rs_addrs s ++ spec_reports (rs_name s) rs (rs_addrs s) /\
+  rs_name (fst (res_records now rs s)) = rs_name s /\ rs_active (fst (res_records now rs s)) = rs_active s.
+Proof. exact (res_records_reports now rs s). Qed.
+Print Assumptions C16_response_reports.
+
+(* "reports an address only if ...": every reported address is new and comes from a qualifying record *)
+Theorem C16_reports_only_valid name rs acc a :
+  In a (spec_reports name rs acc) -> ~ In a acc /\ exists r, In r rs /\ qualifies name r = true /\ r_addr r = a.
+Proof. exact (spec_reports_sound name rs acc a). Qed.
+Print Assumptions C16_reports_only_valid.
+
+(* "every such address is reported": now or earlier *)
+Theorem C16_every_valid_address_reported name rs acc r :
+  In r rs -> qualifies name r = true -> In (r_addr r) (acc ++ spec_reports name rs acc).
+Proof. exact (spec_reports_complete name rs acc r). Qed.
+Print Assumptions C16_every_valid_address_reported.
+
+(* "no address is reported twice because of repeated responses": over any sequence of handler invocations at any
+   instants, the ghost list of everything reported because of responses since the resolver was created equals the
+   resolver's memory and holds no address twice *)
+Theorem C16_never_twice evs s g :
+  RInv s g -> RInv (fst (res_life evs s g)) (snd (res_life evs s g)).
+Proof. exact (res_life_inv evs s g). Qed.
+Print Assumptions C16_never_twice.
+
+(* the same for every run of the executable model under the kernel *)
+Theorem C16_never_twice_kernel fuel ops :
+  NoDup (rs_addrs (s_st (state_after resst rapi res_handle fuel (mkSim 0 [] 0%N (mkRes empty_cache 0 None false [])) ops))).
+Proof. exact (res_run_nodup fuel ops). Qed.
+Print Assumptions C16_never_twice_kernel.
+
+(* "present in the supplied cache when resolving starts": the zero-delay timer reports exactly the addresses of the
+   A and AAAA records the cache returns for the name *)
+Theorem C16_cached_addresses_reported now s :
+  reports (snd (res_handle now s (EvTimer T_RES))) =
+  map r_addr (lookup (rs_name s) 1 (rs_cache s) ++ lookup (rs_name s) 28 (rs_cache s)).
+Proof. exact (res_timer_reports now s). Qed.
+Print Assumptions C16_cached_addresses_reported.
+
+Example C16_nonvacuous :
+  let r := set_addr (A4 1) (set_ttl 120 (set_type 1 (set_name (Some [104]%N) default_record))) in
+  spec_reports (Some [104]%N) [r; r] [] = [A4 1].
+Proof. vm_compute. reflexivity. Qed.
